@@ -292,6 +292,87 @@ func (r *RigS) leakedRegistration(owner string, tgt int, coll int64, shard int) 
 	return false
 }
 
+// checkpointFromEarlierRegistration: the checkpoint names a message id that the CURRENT registration of the stream has not
+// handed out (or there is no open registration at all) although the task was resumed in this incarnation: the acknowledged
+// pack it stems from - possibly a tick-only pack, which no data message identifies - was computed for an earlier
+// registration and waited in a queue across the pause / resume (KF stale-pack-after-resume).
+func (r *RigS) checkpointFromEarlierRegistration(task string, tgt int, coll int64, shard int, seq int) bool {
+	resumed := false
+	for _, rec := range r.st.OpLog {
+		if rec.K == "resume" && rec.Task == task && rec.Inc == r.plan.Incarnation {
+			resumed = true
+		}
+	}
+	if r.opBusy && r.st.InFlight >= 0 && r.sc.Ops[r.st.InFlight].K == "resume" && r.sc.Ops[r.st.InFlight].Task == task {
+		resumed = true
+	}
+	if !resumed {
+		return false
+	}
+	cur := -1
+	for _, st := range r.mq.All {
+		if st.Coll != coll || st.Shard != shard || st.PCh == replicateChan || st.Closed || r.targetOfStream(st) != tgt {
+			continue
+		}
+		for _, dp := range st.Delivered {
+			if dp.EndSeq > cur {
+				cur = dp.EndSeq
+			}
+		}
+	}
+	if seq > cur {
+		r.s.Probe("checkpoint_from_earlier_registration")
+		return true
+	}
+	return false
+}
+
+// waitsInBatcher: every lost message travelled in a forwarded pack (hook H15) to the downstream channel of its shard, and
+// that downstream channel has not acknowledged anything since the message was read: the pack sits in the write batcher of
+// that channel, which flushes by age only when a next pack arrives - and none does, because the handler that owns the
+// channel has no stream left (KF forwarded-pack-waits-in-batcher).
+func (r *RigS) waitsInBatcher(tgt int, coll int64, shard int, lost []int64) bool {
+	c := r.collByID[coll]
+	if c == nil || len(lost) == 0 {
+		return false
+	}
+	dc := r.st.SDK[tgt].Colls[c.DB+"/"+c.Name]
+	if dc == nil || shard >= len(dc.VCh) {
+		return false
+	}
+	pch := srcPCh(shard)
+	for _, tag := range lost {
+		seq, step := -1, -1
+		for _, st := range r.mq.All {
+			if st.Coll != coll || st.Shard != shard || st.PCh == replicateChan || r.targetOfStream(st) != tgt {
+				continue
+			}
+			for _, dp := range st.Delivered {
+				for _, e := range dp.Entries {
+					if e.Tag == tag && (e.Kind == "ins" || e.Kind == "del") {
+						seq, step = e.Seq, dp.Step
+					}
+				}
+			}
+		}
+		if seq < 0 || !r.tookForwardPath(coll, pch, seq) {
+			return false
+		}
+		// any acknowledgement of a pack with data of ANOTHER stream on the collection's downstream channels after the message
+		// was read would have flushed the batcher
+		for _, v := range dc.VCh {
+			ch := physOf(v)
+			for _, a := range r.st.SDK[tgt].Acks {
+				if a.Channel == ch && a.Inc == r.plan.Incarnation && a.Step > step+1 {
+					return false
+				}
+			}
+		}
+	}
+	r.s.Probe("forwarded_pack_waits_in_batcher")
+	return true
+}
+
 // ackTrace / srcTrace: compact histories for violation reports.
 func (r *RigS) ackTrace(tgt int, coll int64, shard int) string {
 	c := r.collByID[coll]
@@ -490,7 +571,7 @@ func (r *RigS) checkCheckpoints() {
 				if r.leakedRegistration(p.TaskID, tgt, p.CollectionID, shard) {
 					cls = "_registration_in_flight_at_stop"
 				}
-				if r.st.StaleAck[fmt.Sprintf("%d|%d|%d", tgt, p.CollectionID, shard)] {
+				if r.st.StaleAck[fmt.Sprintf("%d|%d|%d", tgt, p.CollectionID, shard)] || r.checkpointFromEarlierRegistration(p.TaskID, tgt, p.CollectionID, shard, seq) {
 					cls = "_stale_pack_after_resume"
 				}
 				if r.consequenceOfTimeSkip(key, un) {
@@ -1291,6 +1372,9 @@ func (r *RigS) finalOracles() {
 			}
 			if r.consequenceOfOvertaking(key, lost) {
 				cls = "_forwarded_pack_overtaken"
+			}
+			if cls == "" && r.waitsInBatcher(tgt, coll, shard, lost) {
+				cls = "_forwarded_pack_waits_in_batcher"
 			}
 			s.Violate("C05", "lost_message"+cls, "task %s is running and idle at the end, but messages %v of collection %d shard %d never reached target %d", owner, lost, coll, shard, tgt)
 			// the same observation read as C06: a message that is not delivered while its task stays Running was skipped silently
